@@ -5137,6 +5137,23 @@ def lib_diag(ev, a, k, n, mod):
 lib_diag.kw = set()
 
 
+def lib_tri(lower):
+    """numpy.tril / numpy.triu(m, k=0) on the last two (constant) axes: entries on the other side of the k-th diagonal become zero"""
+    def f(ev, a, k, n, mod):
+        x = a[0]
+        kk = _const_int(k.get("k", a[1] if len(a) > 1 else sp.Integer(0)))
+        if not isinstance(x, ArrV) or len(x.shape) < 2 or x.batch_last:
+            raise ev.err("numpy.tril / triu of something other than a matrix with constant trailing axes", n, mod)
+        out = ArrV(x.batch, x.shape, fill=x.fill)
+        for key in itertools.product(*[range(d) for d in x.shape]):
+            i, j = key[-2], key[-1]
+            keep = (j - i <= kk) if lower else (j - i >= kk)
+            out.cells[key] = x.get(key) if keep else sp.Integer(0)
+        return out
+    f.kw = {"k"}
+    return f
+
+
 def lib_einsum(ev, a, k, n, mod):
     """numpy.einsum with an explicit output on small arrays (no grid axes): the sum over the contracted constant axes"""
     spec = a[0].replace(" ", "") if isinstance(a[0], str) else None
@@ -5383,6 +5400,7 @@ LIB.update({"numpy.transpose": lib_transpose, "ndarray.transpose": lib_transpose
             "numpy.tile": lib_tile})
 LIB.update({"numpy.clip": lib_clip, "ndarray.clip": lib_clip, "numpy.maximum": lib_minmax2("MAXIMUM"), "numpy.minimum": lib_minmax2("MINIMUM"),
             "numpy.fmax": lib_minmax2("MAXIMUM"), "numpy.fmin": lib_minmax2("MINIMUM")})
+LIB.update({"numpy.tril": lib_tri(True), "numpy.triu": lib_tri(False)})
 LIB.update({"numpy.zeros_like": lib_zeros_like, "numpy.ones_like": lib_ones_like, "numpy.empty_like": lib_empty_like, "numpy.eye": lib_eye,
             "numpy.identity": lib_eye, "numpy.empty": lib_empty})
 
